@@ -221,38 +221,28 @@ theorem canon_foldl (ops : List CfgOp) (c : Cfg) (ho : ∀ o ∈ ops, OpCanonica
     exact ih _ (fun x hx => ho x (List.mem_cons_of_mem _ hx)) (canon_apply c o (ho o (by simp)) h)
 
 /-- the invariant of the configuration gives the hypothesis `WF` of the main theorem -/
-theorem wf_of_inv {c : Cfg} (h : CfgInv c) : WF (proj c.fabrics) := by
-  refine ⟨?_, ?_, ?_⟩
-  · rw [proj_idx]; exact h.distinct
-  · intro f hf e he
-    obtain ⟨x, hx, rfl⟩ := List.mem_map.mp hf
-    exact (h.fabOk x hx).1 e he
-  · intro f hf
-    obtain ⟨x, hx, rfl⟩ := List.mem_map.mp hf
-    simp only [XFabric.toFabric, List.map_map]
-    exact (h.fabOk x hx).2
+theorem wf_of_inv {c : Cfg} (h : CfgInv c) : WF c.fabrics :=
+  ⟨h.distinct, fun f hf => (h.fabOk f hf).1, fun f hf => (h.fabOk f hf).2⟩
 
-theorem canonical_of_canon {c : Cfg} (h : CfgCanon c) : CanonicalPrivs (proj c.fabrics) := by
-  intro f hf e he
-  obtain ⟨x, hx, rfl⟩ := List.mem_map.mp hf
-  exact h.fabrics x hx e he
+theorem canonical_of_canon {c : Cfg} (h : CfgCanon c) : CanonicalPrivs c.fabrics :=
+  fun f hf => h.fabrics f hf
 
 /-- **Every reachable configuration is well-formed**: whatever sequence of the modelled mutators
 (with whatever arguments, succeeding or failing) has run since the empty table. -/
-theorem reachable_wf (ops : List CfgOp) : WF (proj (runOps ops).fabrics) :=
+theorem reachable_wf (ops : List CfgOp) : WF (runOps ops).fabrics :=
   wf_of_inv (inv_foldl ops {} inv_empty)
 
 /-- **Every reachable configuration stores only the five privileges**, provided the entries handed
 over as Rust values did. -/
 theorem reachable_canonical (ops : List CfgOp) (ho : ∀ o ∈ ops, OpCanonical o) :
-    CanonicalPrivs (proj (runOps ops).fabrics) :=
+    CanonicalPrivs (runOps ops).fabrics :=
   canonical_of_canon (canon_foldl ops {} ho canon_empty)
 
 /-- **C05 over histories.** In every configuration reachable through the modelled mutators, for
 every read / write request, the decision of the code is exactly the specification. -/
 theorem allow_iff_granted_reachable (ops : List CfgOp) (ho : ∀ o ∈ ops, OpCanonical o)
     (req : AccessReq) (hop : ReadOrWrite req) :
-    allow (proj (runOps ops).fabrics) req = true ↔ Granted (proj (runOps ops).fabrics) req :=
+    allow (runOps ops).fabrics req = true ↔ Granted (runOps ops).fabrics req :=
   allow_iff_granted _ req (reachable_wf ops) (reachable_canonical ops ho) hop
 
 /-- … without any hypothesis on the operations when they are those a peer can cause over the wire
@@ -260,16 +250,16 @@ or the node performs itself (ACL cluster writes, AddNOC's entry, group commands,
 fail-safe roll-back, fabric removal). -/
 theorem allow_iff_granted_production (ops : List CfgOp) (hw : ∀ o ∈ ops, OpFromWire o)
     (req : AccessReq) (hop : ReadOrWrite req) :
-    allow (proj (runOps ops).fabrics) req = true ↔ Granted (proj (runOps ops).fabrics) req :=
+    allow (runOps ops).fabrics req = true ↔ Granted (runOps ops).fabrics req :=
   allow_iff_granted_reachable ops (fun o h => opFromWire_canonical (hw o h)) req hop
 
 /-- group accessors reach exactly the member endpoints of their group, in every reachable configuration -/
 theorem group_reaches_reachable (ops : List CfgOp) (a : Accessor) (ep : Nat) :
-    isEndpointAccessible (proj (runOps ops).fabrics) a ep = true ↔ Reaches (proj (runOps ops).fabrics) a ep :=
+    isEndpointAccessible (runOps ops).fabrics a ep = true ↔ Reaches (runOps ops).fabrics a ep :=
   group_reaches_only_member_endpoints _ a ep (reachable_wf ops)
 
 /-- what the handler stores is never a PASE entry and never a Group entry with Administer -/
-theorem handler_entries {f f' : XFabric} {w : AclWrite} (h : handlerSetAcl f w = some (.ok f'))
+theorem handler_entries {f f' : Fabric} {w : AclWrite} (h : handlerSetAcl f w = some (.ok f'))
     (hold : ∀ e ∈ f.acl, e.authMode ≠ AuthMode.pase) : ∀ e ∈ f'.acl, e.authMode ≠ AuthMode.pase := by
   intro x hx
   rcases (handlerSetAcl_step h).2.2 x hx with hx | ⟨e, ⟨s, hs⟩, rfl⟩
@@ -314,21 +304,21 @@ theorem hist_fromWire : ∀ o ∈ hist, OpFromWire o := by
 three entries and its group -/
 example : (runOps hist).fabrics.map (fun f => (f.fabIdx, f.acl.length, f.groups.length)) = [(1, 2, 1)] := by decide
 /-- a holder of tag 1 version 3 on fabric 1 may write an Operate attribute on endpoint 1 … -/
-example : allow (proj (runOps hist).fabrics) (mkReq 1 (some .case) [9, tag1 3, 0, 0] 1 6 WRITE 46) = true := by decide
+example : allow (runOps hist).fabrics (mkReq 1 (some .case) [9, tag1 3, 0, 0] 1 6 WRITE 46) = true := by decide
 /-- … which the theorem turns into the specification's statement … -/
-example : Granted (proj (runOps hist).fabrics) (mkReq 1 (some .case) [9, tag1 3, 0, 0] 1 6 WRITE 46) :=
+example : Granted (runOps hist).fabrics (mkReq 1 (some .case) [9, tag1 3, 0, 0] 1 6 WRITE 46) :=
   (allow_iff_granted_production hist hist_fromWire _ ⟨.write, rfl⟩).mp (by decide)
 /-- … but not on endpoint 2, and the admin node may -/
-example : allow (proj (runOps hist).fabrics) (mkReq 1 (some .case) [9, tag1 3, 0, 0] 2 6 WRITE 46) = false := by decide
-example : allow (proj (runOps hist).fabrics) (mkReq 1 (some .case) [112233, 0, 0, 0] 2 6 WRITE 46) = true := by decide
+example : allow (runOps hist).fabrics (mkReq 1 (some .case) [9, tag1 3, 0, 0] 2 6 WRITE 46) = false := by decide
+example : allow (runOps hist).fabrics (mkReq 1 (some .case) [112233, 0, 0, 0] 2 6 WRITE 46) = true := by decide
 
 /-- `OpCanonical` matters: the Rust API stores an entry with the bare `A` bit (none of the five
 privileges) — code and specification then differ, as in `C05.odd` -/
 def histOdd : List CfgOp :=
   [ .fabAdd none,
     .aclAdd 1 { privilege := Consts.privA, authMode := .case, subjects := none, targets := none, fabIdx := none } ]
-example : allow (proj (runOps histOdd).fabrics) (mkReq 1 (some .case) [5, 0, 0, 0] 0 6 READ 57) = true ∧
-    grantedB (proj (runOps histOdd).fabrics) (mkReq 1 (some .case) [5, 0, 0, 0] 0 6 READ 57) = false := by decide
+example : allow (runOps histOdd).fabrics (mkReq 1 (some .case) [5, 0, 0, 0] 0 6 READ 57) = true ∧
+    grantedB (runOps histOdd).fabrics (mkReq 1 (some .case) [5, 0, 0, 0] 0 6 READ 57) = false := by decide
 /-- … and persisting + reloading such an entry turns it into Administer (the enumeration round trip) -/
 example : ((runOps (histOdd ++ [.persistStore 1, .loadPersist])).fabrics.map (fun f => f.acl.map (·.privilege))) = [[PRIV_ADMIN]] := by
   decide
@@ -533,8 +523,8 @@ theorem forSession_group_id (fabIdx gid : Nat) (peer : Option Nat) (aux : Bool) 
 statement of the property -/
 theorem group_session_reaches (ops : List CfgOp) (fabIdx gid : Nat) (peer : Option Nat) (aux : Bool) (ep : Nat)
     (hg : gid < 65536) :
-    isEndpointAccessible (proj (runOps ops).fabrics) (accessorForSession (.group fabIdx gid) peer aux) ep = true ↔
-      ReachesId (proj (runOps ops).fabrics) (accessorForSession (.group fabIdx gid) peer aux) ep :=
+    isEndpointAccessible (runOps ops).fabrics (accessorForSession (.group fabIdx gid) peer aux) ep = true ↔
+      ReachesId (runOps ops).fabrics (accessorForSession (.group fabIdx gid) peer aux) ep :=
   group_reaches_iff_reachesId _ _ ep (reachable_wf ops) (by rw [forSession_group_id]; exact hg)
 
 example : (accessorForSession (.group 1 7) none false).subjects.headD 0 < 65536 := by decide
